@@ -133,7 +133,9 @@ def run(rep, tier, rng):
                        "vertices of random parts of random shapes, plus files whose Z (or M) values are all one special value "
                        "(+-inf, f64::MAX/MIN, 0), plus an empty file; constructed values and written bytes compared with the "
                        "model; oracle: per-shape box and header box recomputed from the vertices with a total order on bit "
-                       "patterns; non-trivial = distinct case" % nfiles)
+                       "patterns; plus histories in which the second write fails on its first operation (one-shot fault on either "
+                       "destination) before finalize: the header box must cover the first shape only; "
+                       "non-trivial = distinct case" % nfiles)
     P.run_ctor_stage(rep, dev, files, "c05")
     P.run_write_stage(rep, dev, files, "c05")
     nfail, skipped, extreme_pos = 0, 0, {}
@@ -171,6 +173,38 @@ def run(rep, tier, rng):
                 wire = [("w", f["specs"][c[1]]) if c[0] == "w" else c for c in f["calls"]]
                 rep.violation({"kind": "oracle", "what": msg, "case_kind": "whist", "case": C.whist_case(True, 0, wire),
                                "code": f["code"], "mode": f["mode"], "specs": f["specs"]})
+    # ---- a write_shape that fails on its very first destination operation puts nothing in the file: the header
+    # box must not cover that shape either (one-shot fault, then finalize)
+    cand = [f for f in files if len(f["specs"]) >= 2 and "special" not in f["written"] and f.get("values")
+            and all(v is not None for v in f["values"])]
+    cand = cand[: (60 if tier == "thorough" else 26)]
+    base = sfv.run_impl(dev, [C.whist_case(True, 0, [("w", f["specs"][0])]) for f in cand])
+    fcases, fmeta = [], []
+    for f, b in zip(cand, base):
+        pb = C.parse_whist(b)
+        if "special" in pb:
+            continue
+        for dest, n0 in ((1, pb["shp"]["ops"] - 16), (2, pb["shx"]["ops"] - 16)):
+            fcases.append(C.whist_case(True, 0, [("w", f["specs"][0]), ("w", f["specs"][1]), ("f",)], fault=(dest, n0, 0)))
+            fmeta.append((f, dest))
+    fimpl = stages.correspondence(rep, "whist_fault", dev, fcases, "whist(first operation of the second write fails)")
+    for c, (f, dest), r in zip(fcases, fmeta, fimpl):
+        res = C.parse_whist(r)
+        msg = None
+        if "special" in res:
+            continue
+        if res["results"][0] != ("ok",) or res["results"][1][0] != "err":
+            msg = "the write whose first operation failed returned %r" % (res["results"][1],)
+        elif dest == 1:
+            vals = [shapes.parse_shape(shapes.Cur(list(v))) for v in f["values"]]
+            m = header_oracle(f["code"], [vals[0]], res["shp"]["buf"])
+            if m and m != "skip":
+                msg = "after a write that failed before writing anything: " + m
+        if msg:
+            nfail += 1
+            if nfail == 1:
+                rep.violation({"kind": "oracle", "what": msg, "case_kind": "whist", "case": c, "code": f["code"]})
+    rep.cov["failed_write_histories"] = len(fcases)
     rep.sample({"type": files[0]["code"], "constructor_calls": files[0]["specs"][:2]})
     rep.cov["oracle"] = {"files": len(files), "failing": nfail, "skipped_because_of_nan": skipped}
     rep.assumptions += ["no claim for NaN coordinates, for the header M range of multipatch files or of files containing "
